@@ -1360,6 +1360,11 @@ func (s *Netceptor) SendMessageWithHopsToLive(fromService string, toNode string,
 	if strings.EqualFold(toNode, "localhost") {
 		toNode = s.nodeID
 	}
+	if toNode == s.nodeID {
+		// Local delivery hands the slice itself to the reader, which copies it only after we have returned:
+		// give it its own copy, so that the caller may reuse its buffer as with any other destination.
+		data = append([]byte(nil), data...)
+	}
 	md := &MessageData{
 		FromNode:    s.nodeID,
 		FromService: fromService,
